@@ -1048,12 +1048,25 @@ pub fn install_panic_hook() {
         } else {
             String::new()
         };
+        if std::env::var_os("CX_VERBOSE").is_some() {
+            eprintln!("panic: {} @ {}", msg, loc);
+        }
         PANIC_LOC.with(|p| *p.borrow_mut() = format!("{} @ {}", msg, loc));
     }));
 }
 
 pub fn take_panic_loc() -> String {
     PANIC_LOC.with(|p| std::mem::take(&mut *p.borrow_mut()))
+}
+
+/// A panic that escaped the per-op handlers (child side of the fork executor).
+pub fn escaped_panic(e: Box<dyn std::any::Any + Send>) -> ! {
+    if e.is::<Injected>() {
+        std::mem::forget(e);
+        violate(View::Internal, "injected panic escaped the interpreter");
+    }
+    handle_panic(e);
+    violate(View::Internal, "unclassified panic")
 }
 
 fn handle_panic(e: Box<dyn std::any::Any + Send>) {
@@ -1148,7 +1161,11 @@ pub fn run_script_body(s: &Script, cfg: Cfg) {
         let base = s.ops.len();
         let mut k = 0usize;
         // raw pointers and loose values first
-        crate::consume::cleanup();
+        shared().op = base as u32;
+        let r = catch_unwind(AssertUnwindSafe(crate::consume::cleanup));
+        if let Err(e) = r {
+            handle_panic(e);
+        }
         loop {
             let (nr, nw) = (wd.model.borrow().roots.len(), wd.model.borrow().wroots.len());
             if nr + nw == 0 {
@@ -1188,7 +1205,10 @@ pub fn run_script_body(s: &Script, cfg: Cfg) {
             }
         }
         if leaks {
-            audit_memory(true);
+            let r = catch_unwind(AssertUnwindSafe(|| audit_memory(true)));
+            if let Err(e) = r {
+                handle_panic(e);
+            }
         }
     }
 }
